@@ -822,8 +822,27 @@ def layers_modname(spec):
     return spec['mp'] + 'layers'
 
 
+def module_pkg(spec, m):
+    """dotted name of the package a test module lives in ('' = top level); every component carries the world's prefix"""
+    pkg = m.get('pkg')
+    return '.'.join(spec['mp'] + part for part in pkg.split('.')) if pkg else ''
+
+
 def test_modname(spec, m):
-    return m.get('modname') or (spec['mp'] + 't_' + m['name'])
+    if m.get('modname'):
+        return m['modname']
+    base = spec['mp'] + 't_' + m['name']
+    pkg = module_pkg(spec, m)
+    return pkg + '.' + base if pkg else base
+
+
+def package_path_args(spec, src):
+    """--package-path options for the packages the world wants searched a second time under their dotted name"""
+    args = []
+    for pkg in spec.get('package_paths') or ():
+        dotted = '.'.join(spec['mp'] + part for part in pkg.split('.'))
+        args += ['--package-path', os.path.join(src, *dotted.split('.')), dotted]
+    return args
 
 
 def get_layers(spec):
@@ -934,7 +953,7 @@ def write_world(spec, directory):
     with open(os.path.join(src, layers_modname(spec) + '.py'), 'w') as f:
         f.write('from ztv.runtime import materialise_layers\nmaterialise_layers(globals())\n')
     for m in spec['modules']:
-        rel = m.get('path') or (test_modname(spec, m) + '.py')
+        rel = m.get('path') or (test_modname(spec, m).replace('.', os.sep) + '.py')
         p = os.path.join(src, rel)
         os.makedirs(os.path.dirname(p), exist_ok=True)
         with open(p, 'w') as f:
